@@ -13,6 +13,7 @@ import (
 	"strconv"
 	"strings"
 	"sync"
+	"syscall"
 	"time"
 
 	v2 "mosn.io/mosn/pkg/config/v2"
@@ -195,6 +196,44 @@ func FreeAddr() string {
 	a := l.Addr().String()
 	l.Close()
 	return a
+}
+
+var reserved []int // fds of bound-but-never-listening sockets: kept open for the life of the driver
+
+// RefusedAddr returns a loopback address on which connects are refused for the whole life of this process:
+// the socket is bound (so no other process can be given the port) but never listens.
+func RefusedAddr() string {
+	fd, err := syscall.Socket(syscall.AF_INET, syscall.SOCK_STREAM, 0)
+	if err != nil {
+		return FreeAddr()
+	}
+	sa := &syscall.SockaddrInet4{Port: 0, Addr: [4]byte{127, 0, 0, 1}}
+	if err := syscall.Bind(fd, sa); err != nil {
+		syscall.Close(fd)
+		return FreeAddr()
+	}
+	got, err := syscall.Getsockname(fd)
+	if err != nil {
+		syscall.Close(fd)
+		return FreeAddr()
+	}
+	reserved = append(reserved, fd)
+	return fmt.Sprintf("127.0.0.1:%d", got.(*syscall.SockaddrInet4).Port)
+}
+
+// ListenerAddr picks a listener address in a pid-derived range below the ephemeral ports, so that parallel
+// driver processes (shards, other checks) do not hand each other's freed ports around.
+func ListenerAddr() string {
+	base := 20000 + (os.Getpid()*131)%9000
+	for i := 0; i < 200; i++ {
+		a := fmt.Sprintf("127.0.0.1:%d", base+i)
+		l, err := net.Listen("tcp", a)
+		if err == nil {
+			l.Close()
+			return a
+		}
+	}
+	return FreeAddr()
 }
 
 // ListenerGauge reads a listener-level gauge/counter, e.g. metrics.DownstreamRequestActive.
